@@ -20,6 +20,9 @@ const prop = "C25"
 var W *walletlab.World
 
 func runHist(h []int, _ json.RawMessage) (out xplore.Out) {
+	if len(h) > 0 && h[0] == steppedMarker {
+		return runStepped(h[1:])
+	}
 	x, err := W.NewInst()
 	if err != nil {
 		return xplore.Out{Viols: []xplore.Viol{{Key: "infra-newnode", What: err.Error()}}}
@@ -116,13 +119,19 @@ func main() {
 		}
 	}
 	W = walletlab.Build(thorough)
-	spec := &xplore.Spec{Name: "wallet", Run: runHist, Recycle: 40, Describe: func(h []int) interface{} { return W.Describe(h) }}
+	spec := &xplore.Spec{Name: "wallet", Run: runHist, Recycle: 40, Describe: func(h []int) interface{} {
+		if len(h) > 0 && h[0] == steppedMarker {
+			return append([]string{"world:lagging-wallet", "a1..a5"}, steppedWorld().Describe(h[1:])...)
+		}
+		return W.Describe(h)
+	}}
 	if par.IsWorker() {
 		xplore.Worker(spec)
 	}
 	run := ev.Start(prop, "model_checking")
 	spec.MaxDepth = len(W.Events) + 1
 	st := xplore.BFS(run, spec)
+	stepped(run, spec)
 	run.Set("states", st.States)
 	run.Set("transitions", st.Transitions)
 	run.Set("traces_validated_against_impl", st.Checks)
